@@ -182,7 +182,23 @@ func genPtrCase(r *rng, id string) *ValCase {
 		defsKey = "definitions"
 		root = append(root, DMem{"$schema", DStr("http://json-schema.org/draft-07/schema#")})
 	}
-	root = append(root, DMem{"properties", props}, DMem{defsKey, DObj{{"t", tree}}})
+	defs := DObj{{"t", tree}}
+	if r.chance(1, 3) && len(g.locs) > 1 {
+		// an anchor spelled like the JSON pointer of another subschema: a fragment that begins with
+		// '/' is a pointer, it must reach the location it spells and never this anchor
+		spelled := strings.TrimPrefix(pick(r, g.locs[1:]), "#")
+		decoy := DObj{{"$anchor", DStr(spelled)}, {"required", toDoc([]string{"decoy"})}}
+		if g.d7 {
+			decoy = DObj{{"$id", DStr("#" + spelled)}, {"required", toDoc([]string{"decoy"})}}
+		}
+		if r.chance(1, 2) {
+			defs = append(DObj{{"a_decoy", decoy}}, defs...)
+		} else {
+			defs = append(defs, DMem{"z_decoy", decoy})
+		}
+		hold("#" + spelled)
+	}
+	root = append(root, DMem{"properties", props}, DMem{defsKey, defs})
 	c := &ValCase{ID: id, Doc: root, NoLoader: true}
 	for h := 0; h < nh; h++ {
 		for _, m := range g.marker {
